@@ -179,7 +179,22 @@ func c07Gen(g *simcore.Tape, thorough bool) *c07Scenario {
 				default:
 					rs.Body = g.Bytes(g.Range(1, maxBody))
 				}
-				rs.Chunked = g.Chance(40)
+				// A reply of unknown length makes httputil.ReverseProxy arm an immediate flush timer whose
+				// goroutine races the copy loop in real time; the race decides whether net/http sniffs a
+				// Content-Type and whether an empty body is framed as Content-Length: 0 or as chunks. That is
+				// outside fabio and would make runs irreproducible, so chunked replies always carry a body and a type.
+				rs.Chunked = len(rs.Body) > 0 && g.Chance(40)
+				if rs.Chunked {
+					hasCT := false
+					for _, h := range rs.Headers {
+						if h.K == "Content-Type" {
+							hasCT = true
+						}
+					}
+					if !hasCT {
+						rs.Headers = append(rs.Headers, h2Header{"Content-Type", "application/octet-stream"})
+					}
+				}
 			} else if rq.Method == "HEAD" {
 				rs.Body = g.Bytes(g.Range(0, 50))
 			}
